@@ -1899,6 +1899,26 @@ def check_C10(tier, seed):
                     res.cov['disagreements_checked'] = res.cov.get('disagreements_checked', 0) + 1
                     if len(res.pending) < 10:
                         res.pending.append({'program': text, 'impl_decoded': decode_line(dl[k]), 'model_decoded': decode_line(ml[k]), 'why': 'differ', 'correspondence': 'Eval.apply_prim'})
+    # programs whose recursion is in tail position run on a small stack: the interpreter must not abort the process
+    deep = ["(defun f (n acc) (if (> n 0) (f (- n 1) (+ acc 1)) acc)) (f 20000 0)",
+            "(defun f (n acc) (if (< n 1) acc (f (- n 1) (+ acc 1)))) (f 20000 0)",
+            "(defun f (n acc) (cond ((> n 0) (f (- n 1) (+ acc 1))) (t acc))) (f 20000 0)",
+            "(defun f (n acc) (if (> n 0) (let ((m (- n 1))) (progn (f m (+ acc 1)))) acc)) (f 20000 0)",
+            "(defun f (n acc) (when (> n 0) (setq acc (+ acc 1))) (if (> n 0) (f (- n 1) acc) acc)) (f 20000 0)",
+            "(let ((i 0) (l nil)) (while (< i 20000) (setq l (cons i l)) (setq i (1+ i))) (length l))",
+            "(let ((l nil)) (dotimes (i 20000) (setq l (cons i l))) (length (mapcar '1+ l)))"]
+    dcases = []
+    for j, t in enumerate(deep):
+        c = Case('deep%d' % j); c.eval(t); dcases.append(c)
+    for binary, label in ((core.TLIMPL_DEBUG, 'debug'), (core.TLIMPL_RELEASE, 'release')):
+        out = core.run_side(binary, dcases, env={'TL_STACK_MB': '16'}, announce=True, timeout=300)
+        for c, t in zip(dcases, deep):
+            ls = out.get(c.cid, [])
+            k = core.parse_line(ls[0])[1] if ls else 'A'
+            ncmp += 1
+            if k != 'V':
+                nv += 1
+                if nv <= 8: res.violation('abort', {'program': t, 'profile': label, 'line': ls[:1], 'why': 'iteration in tail position exhausted a 16 MiB stack or failed'})
     res.cov['evaluations'] = ncmp
     res.cov['distinct_nontrivial'] = len(distinct)
     res.cov['exhaustive'] = True
